@@ -94,8 +94,30 @@ def set_members_collapse(v, kw):
     return False
 
 
+def bool_number_alias(a, b):
+    """a bool and a number that are == somewhere in the two values: with ignore_numeric_type_changes DeepDiff compares them as numbers
+    (True == 1), DeepHash keeps 'bool:true' apart from 'number:1' (finding F46)"""
+    bools, nums = set(), set()
+
+    def walk(v):
+        if isinstance(v, bool):
+            bools.add(v)
+        elif isinstance(v, (int, float)):
+            nums.add(v)
+        elif isinstance(v, dict):
+            for k, x in v.items():
+                walk(k); walk(x)
+        elif isinstance(v, (list, tuple, set, frozenset)):
+            for x in v:
+                walk(x)
+    walk(a); walk(b)
+    return any(x == y for x in bools for y in nums)
+
+
 def in_domain(a, b, kw=None):
     kw = kw or {}
+    if kw.get('ignore_numeric_type_changes') and bool_number_alias(a, b):
+        return False
     return (HS.no_num_alias(a, b) and HS.no_spoof(a, b) and not keys_collapse(a, kw) and not keys_collapse(b, kw)
             and not set_members_collapse(a, kw) and not set_members_collapse(b, kw))
 
@@ -170,7 +192,10 @@ def run(ctx, impl_only=False):
     def f29():
         heq, empty, _ = both([{2.5}], [{1.5, 2.5}], True, dict(significant_digits=0))
         return heq == empty
-    for fid, fn in {'F18': f18, 'F29': f29}.items():
+    def f46():
+        heq, empty, _ = both([1, 'x'], [True, 'x'], False, dict(ignore_numeric_type_changes=True))
+        return heq == empty
+    for fid, fn in {'F18': f18, 'F29': f29, 'F46': f46}.items():
         ctx.evaluations += 1
         try:
             ok = fn()
